@@ -134,6 +134,7 @@ class _ReadSourceGenerator:
     def _generate_fields(self) -> Iterator[str]:
         current_offset = 0
         current_block: list[Field] = []
+        current_block_offset = 0
         prev_was_bits = False
         prev_bits_type = None
         bits_remaining = 0
@@ -141,6 +142,10 @@ class _ReadSourceGenerator:
 
         def flush() -> Iterator[str]:
             if current_block:
+                if current_block[0].offset is not None and current_block[0].offset != current_block_offset:
+                    # The block starts at a different offset than where the previous field left the stream
+                    yield f"stream.seek(o + {current_block[0].offset})"
+
                 if self.align and current_block[0].offset is None:
                     yield f"stream.seek(-stream.tell() & ({current_block[0].alignment} - 1), {io.SEEK_CUR})"
 
@@ -212,6 +217,9 @@ class _ReadSourceGenerator:
 
             # Everything else - basic and composite types (and arrays of them)
             else:
+                if not current_block:
+                    current_block_offset = current_offset
+
                 current_block.append(field)
 
             if current_offset is not None and size is not None and (not field.bits or bits_rollover):
